@@ -246,18 +246,19 @@ def build(lang, ch):
             targ = ch.pick([b.string(), b.integer()])
             c = b.cls(cname, type_params=[T])
             con = c.get_type()
-            fld = ast.FieldDeclaration(b.name('next'), con.new([targ]), is_final=True)
+            dep = ch.boolean()       # self-typed field Node<T> (its type follows the receiver's argument) or a fixed Node<targ>
+            fld = ast.FieldDeclaration(b.name('next'), con.new([T]) if dep else con.new([targ]), is_final=True)
             c.fields.append(fld)
             b.ctx.add_var(b.G + (cname,), fld.name, fld)
             dname = b.name('dup')
             b.func(b.G + (cname,), dname, [], con.new([T]), ast.BottomConstant(con.new([T])), cls=c)
             how = ch.pick(['field', 'call'])
-            recv = ast.New(con.new([targ]), [ast.BottomConstant(con.new([targ]))])
+            recv = ast.New(con.new([targ]), [ast.BottomConstant(None) if dep else ast.BottomConstant(con.new([targ]))])
             e = ast.FieldAccess(recv, fld.name) if how == 'field' else ast.FunctionCall(dname, [], receiver=recv)
             vname = b.name('n')
             v = ast.VariableDeclaration(vname, e, is_final=True, var_type=con.new([targ]))
             b.func(b.G, b.name('walk'), [], con.new([targ]), ast.Block([v, ast.Variable(vname)]))
-            labels.append('receiver-new/' + how)
+            labels.append('receiver-new/' + how + ('/self-typed' if dep else ''))
         elif u == 'nested-reassigned':
             # a variable with a declared supertype, initialised from a top-level variable declared *later*, and assigned
             # from a nested scope (a function declared inside the function)
